@@ -161,6 +161,8 @@ type tracer struct {
 	// isPacker tells whether the calling goroutine runs the node's packer loop body: its pool.Remove calls
 	// (cleanupTransactions) are operations nobody announced, the tracer logs their begin/end itself
 	isPacker func() bool
+	stalePrio int          // evaluations after which a priced object's priority was not the one for the wash's head
+	washHead  thor.Bytes32 // head of the wash in flight
 	stale int // promote events (successful) of an object that was not the pooled object of its hash
 	cur   map[thor.Bytes32]uint64
 }
@@ -272,6 +274,7 @@ func (t *tracer) handle(ev txpool.VerifEvent) {
 		sort.Ints(os)
 		out["os"] = os
 	case "wash.begin":
+		t.washHead = ev.HeadID
 		out["e"] = "wash_begin"
 		out["os"] = t.objsOf(ev.Objs)
 		out["num"] = ev.HeadNum
@@ -306,6 +309,17 @@ func (t *tracer) handle(ev txpool.VerifEvent) {
 		if ev.Cost != nil {
 			out["cost"] = units(ev.Cost)
 			out["pay"] = e.acctName(*ev.Payer)
+		}
+		// recognisable in the event stream itself: the priority left on a priced object is not the one for this wash's head
+		if ev.Prio != nil && ev.Kind == "eval.done" && ev.Tx != nil {
+			if sum, err := e.net.God.Repo.GetBlockSummary(t.washHead); err == nil && sum.Header.Number()+1 >= e.net.FC.GALACTICA {
+				if ev.Prio.Cmp(e.prioAt(ev.Tx, t.washHead)) != 0 {
+					out["staleprio"] = true
+					t.mu.Lock()
+					t.stalePrio++
+					t.mu.Unlock()
+				}
+			}
 		}
 	case "wash.limit":
 		out["e"] = "wash_limit"
